@@ -83,6 +83,25 @@ Theorem C12_answer_refines_model : forall reqid issuer sp u (qs : list dval) id1
        map attr_of_dval l = filter_attrs (requested_of qs) (attrs_of u)).
 Proof. exact attrquery_refines. Qed.
 
+(** ... and the whole answer against the abstract message of the attribute query model (amsg, C12_answered): request ID on the
+    Response and in the subject confirmation, no Destination / Recipient, the IdP's entity ID as issuer of both, the requester as
+    the only audience, the user name as NameID, the filtered attribute list *)
+Theorem C12_answer_message_refines_model : forall reqid issuer sp u (qs : list dval) id1 id2 rest issue until,
+  Forall wf_attr qs ->
+  let M := {| am_in_response_to := reqid; am_issuer := issuer; am_audience := sp; am_nameid := nameid_of u;
+              am_attrs := filter_attrs (requested_of qs) (attrs_of u) |} in
+  built_sat "makeAttributeQueryResponse" None
+    [DStr reqid; DStr issuer; DStr sp; user_rec u; DList qs; DStr (b "f"); DNil] (id1 :: id2 :: rest) issue until
+    (fun d r => r = rest /\
+       opt_str (at_ d ["InResponseTo"%string]) = am_in_response_to M /\ opt_str (dget d (sc_data ++ [PField "InResponseTo"])) = am_in_response_to M /\
+       at_ d ["Destination"%string] = None /\ dget d (sc_data ++ [PField "Recipient"]) = None /\
+       opt_str (at_ d ["Issuer"; "Text"]%string) = am_issuer M /\ opt_str (at_ d ["Assertion"; "Issuer"; "Text"]%string) = am_issuer M /\
+       dget d [PField "Assertion"; PField "Conditions"; PField "AudienceRestriction"; PIndex 0; PField "Audience"] = Some (DList [DStr (am_audience M)]) /\
+       opt_str (at_ d ["Assertion"; "Subject"; "NameID"; "Text"]%string) = am_nameid M /\
+       exists l, dget d [PField "Assertion"; PField "AttributeStatement"; PIndex 0; PField "Attribute"] = Some (DList l) /\
+                 map attr_of_dval l = am_attrs M).
+Proof. exact attrquery_message_refines. Qed.
+
 (** the attribute filter: an attribute is disclosed iff it is one of the user's attributes and (nothing was requested or
     its name and name format match a requested attribute) *)
 Theorem C12_filter : forall requested l a, In a (filter_attrs requested l) <->
@@ -138,3 +157,4 @@ Print Assumptions C12_trailing_content_refused.
 Print Assumptions C12_answered_destination.
 Print Assumptions C12_filter_from_source.
 Print Assumptions C12_answer_refines_model.
+Print Assumptions C12_answer_message_refines_model.
